@@ -2,6 +2,7 @@
 package c13
 
 import (
+	"bytes"
 	"context"
 	"errors"
 	"fmt"
@@ -447,6 +448,26 @@ func runCancelSend(c c13Case) *vh.Failure {
 		return vh.Failf("C13/cancelled-send-result", "%v: send with a cancelled context returned %v", c, err)
 	}
 	vh.Label("send:cancelled")
+	if !c.Conn {
+		// ... and nothing of it is written later either: the application goes on with the next
+		// request on the same channel (live context); the transport sees that request and
+		// nothing else
+		var nerr error
+		ok, pan, _ := timed(2*time.Second, func() { nerr = ch.SendPackage(context.Background(), &tds.LanguagePackage{Cmd: "next"}) })
+		if pan != nil || !ok || nerr != nil {
+			return vh.Failf("C13/send-after-cancelled-send", "%v: the next send (live context) after the cancelled one: returned=%v panic=%v err=%v", c, ok, pan, nerr)
+		}
+		ps, perr := rc.ParsePackets(e.pipe.Written()[before:])
+		var body []byte
+		for _, p := range ps {
+			body = append(body, p.Body...)
+		}
+		want := append([]byte{0x21, 5, 0, 0, 0, 0}, "next"...)
+		if perr != nil || !bytes.Equal(body, want) {
+			return vh.Failf("C13/cancelled-send-written-later", "%v: after a send with a cancelled context (error returned, nothing written), the next request put %d body bytes on the wire instead of its own %d: the cancelled request (%d bytes) is sent ahead of it; parse error: %v", c, len(body), len(want), len(cmd)+6, perr)
+		}
+		vh.Label("send:next-request-after-cancelled-send")
+	}
 	if c.Packets >= 2 {
 		vh.NonTrivial(c.String())
 	}
